@@ -7,3 +7,5 @@ impl Str {
     #[verifier::external_body] pub fn len(&self) -> (r: usize) ensures r == self@.len() { unimplemented!() }
     #[verifier::external_body] pub fn is_empty(&self) -> (r: bool) ensures r == (self@.len() == 0) { unimplemented!() }
 }
+// message texts are not modelled (R4): every format!/to_string result is an arbitrary Str
+#[verifier::external_body] pub fn fmt_shim() -> (r: Str) { unimplemented!() }
